@@ -91,6 +91,10 @@ class BiLinearForm(_Form):
                 # get (Ne, nPg) array
                 values_e_pg = form(u, v)
 
+                # a complex-valued form needs a complex array
+                if np.iscomplexobj(values_e_pg) and not np.iscomplexobj(data):
+                    data = data.astype(complex)
+
                 # sum on gauss points
                 values_e = (values_e_pg * dX_e_pg).integrate()
 
@@ -167,6 +171,10 @@ class LinearForm(_Form):
 
             # get (Ne, nPg) array
             values_e_pg = form(v)
+
+            # a complex-valued form needs a complex array
+            if np.iscomplexobj(values_e_pg) and not np.iscomplexobj(data):
+                data = data.astype(complex)
 
             # sum on gauss points
             values_e = (values_e_pg * dX_e_pg).integrate()
